@@ -1031,14 +1031,22 @@ class segment_if(x12_node):
             (bResult, err_str) = is_syntax_valid(seg_data, syn)
             if not bResult:
                 syn_type = syn[0]
-                # report the error at the first element the note mentions
-                syn_node = self.get_child_node_by_idx(syn[1] - 1)
+                # report the error where it is: at the first element the note
+                # mentions that is missing (for an exclusion: at the second one
+                # that is present)
+                present = [pos for pos in syn[1:] if pos <= len(seg_data) and not seg_data.get('%02i' % pos).is_empty()]
+                missing = [pos for pos in syn[1:] if pos not in present]
+                if syn_type == 'E':
+                    syn_pos = present[1] if len(present) > 1 else syn[1]
+                else:
+                    syn_pos = missing[0] if missing else syn[1]
+                syn_node = self.get_child_node_by_idx(syn_pos - 1)
                 if syn_node is not None:
                     errh.add_ele(syn_node)
                 if syn_type == 'E':
-                    errh.ele_error('10', err_str, None, syn[1])
+                    errh.ele_error('10', err_str, None, syn_pos)
                 else:
-                    errh.ele_error('2', err_str, None, syn[1])
+                    errh.ele_error('2', err_str, None, syn_pos)
                 valid &= False
 
         return valid
